@@ -49,7 +49,8 @@ def gen_wait_simple_det(tape):
 
 
 def gen_stop(tape, depth: int = 0):
-    k = tape.draw(6 if depth == 0 else 3, "stop.kind")
+    # depth 1 may nest one more combinator, so that mixed shapes like (a & b) | c exist; depth 2 is leaves only
+    k = tape.draw(6 if depth == 0 else (5 if depth == 1 else 3), "stop.kind")
     if k == 0:
         return ("attempt", tape.rng_int(0, 5, "stop.n"))
     if k == 1:
@@ -57,14 +58,14 @@ def gen_stop(tape, depth: int = 0):
     if k == 2:
         return ("before_delay", tape.choice([3, 5, 8], "stop.bd"))
     if k == 3:
-        return ("any", [gen_stop(tape, 1), gen_stop(tape, 1)])
+        return ("any", [gen_stop(tape, depth + 1), gen_stop(tape, depth + 1)])
     if k == 4:
-        return ("all", [gen_stop(tape, 1), gen_stop(tape, 1)])
+        return ("all", [gen_stop(tape, depth + 1), gen_stop(tape, depth + 1)])
     return ("attempt", tape.rng_int(1, 4, "stop.n2"))
 
 
 def gen_retry_cond(tape, depth: int = 0):
-    k = tape.draw(8 if depth == 0 else 4, "retry.kind")
+    k = tape.draw(8 if depth == 0 else (6 if depth == 1 else 4), "retry.kind")
     if k == 0:
         return None if depth == 0 else ("always",)
     if k == 1:
@@ -74,9 +75,9 @@ def gen_retry_cond(tape, depth: int = 0):
     if k == 3:
         return ("msg", tape.choice(["f0", "f1", "f[12]", "s0"], "rt.msg"))
     if k == 4:
-        return ("any", [gen_retry_cond(tape, 1), gen_retry_cond(tape, 1)])
+        return ("any", [gen_retry_cond(tape, depth + 1), gen_retry_cond(tape, depth + 1)])
     if k == 5:
-        return ("all", [gen_retry_cond(tape, 1), gen_retry_cond(tape, 1)])
+        return ("all", [gen_retry_cond(tape, depth + 1), gen_retry_cond(tape, depth + 1)])
     return None
 
 
@@ -95,6 +96,9 @@ def wait_kind(w) -> str:
 def gen_retry_spec(tape, cfg: dict[str, Any]) -> dict:
     rich = cfg.get("rich_waits", False)
     pol = {"retry": gen_retry_cond(tape), "wait": gen_wait(tape, rich), "stop": gen_stop(tape) if not cfg.get("stop_attempts_only") else ("attempt", tape.rng_int(2, 6, "stop.n3"))}
+    if cfg.get("p_stop_deadline") and tape.chance(cfg["p_stop_deadline"], 100, "stop.deadline?"):
+        # an attempt budget combined with a time budget, so that waits run into the deadline
+        pol["stop"] = ("any", [pol["stop"], (tape.choice(["delay", "delay", "before_delay"], "stop.dl.kind"), tape.choice([3, 5, 8, 13, 21], "stop.dl"))])
     if tape.chance(cfg.get("p_user_policy", 25), 100, "pol.user"):
         pol["user"] = tape.choice(["plain", "seed"], "pol.user.kind")
     nexc = tape.rng_int(1, 3, "excs.n")
